@@ -230,7 +230,7 @@ def check_property(pid, tier, seed):
                               witness=r["crash"], source="driver", gen=r["job"]["gen"], profile=r["job"]["profile"],
                               driver=r["job"]["driver"], features=r["job"].get("features")))
         for f in r["fails"]:
-            if f["property"] == pid or (f["property"] == "*" ):
+            if f["property"] == pid or (f["property"] == "*" ) or pid in plans.also_counts_for(f):
                 f = dict(f)
                 f["_prog"] = r["programs"].get(str(f["p"]))
                 fails.append(f)
